@@ -1,0 +1,25 @@
+//! Verification hooks (compiled only with `--cfg clarabel_verif`).
+//!
+//! Read-only re-exports and thin wrappers that expose crate-private items to
+//! an external property-testing harness.  Nothing in here changes behaviour.
+#![allow(missing_docs)]
+#![allow(non_snake_case)]
+
+use crate::algebra::*;
+
+// cone types, the Cone / SymmetricCone / JordanAlgebra traits, CompositeCone
+pub use crate::solver::core::cones::*;
+pub use crate::solver::core::{ScalingStrategy, StepDirection};
+
+/// y = a*A*x + b*y
+pub fn gemv_n(A: &CscMatrix<f64>, y: &mut [f64], x: &[f64], a: f64, b: f64) {
+    A.gemv(y, x, a, b);
+}
+/// y = a*A'*x + b*y
+pub fn gemv_t(A: &CscMatrix<f64>, y: &mut [f64], x: &[f64], a: f64, b: f64) {
+    A.t().gemv(y, x, a, b);
+}
+/// y = a*sym(A)*x + b*y, A upper triangular
+pub fn symv(A: &CscMatrix<f64>, y: &mut [f64], x: &[f64], a: f64, b: f64) {
+    A.sym().symv(y, x, a, b);
+}
